@@ -13,6 +13,7 @@
 //!   9 s n v1..vn           lazy iterable; s: 1 sized (exact size hint), 0 unsized, 2 a LinkedList (Enumerator::RevIter)
 //!   10 n k1 v1 .. kn vn    map built by the engine (`{k1: v1, ..}`), pairs inserted in this order
 //!   11 n c1..cn            plain object that renders as the given string
+//!   12 n c1..cn            invalid value: Value::from(Error::new(InvalidOperation, detail)); encoded as a bare 12 in results
 //!
 //! Mode 0 (pair):   0 <a> <b>
 //!   -> eq cmp hash_eq t_lt t_eq t_in t_key      cmp: 0 Less 1 Equal 2 Greater; template answers: 0/1 or 100+err
@@ -112,7 +113,8 @@ fn value(env: &Environment, c: &mut Cur) -> Value {
             let ctx: Value = ctx.into_iter().collect::<std::collections::BTreeMap<String, Value>>().into();
             env.compile_expression(&src).and_then(|e| e.eval(ctx)).unwrap_or(Value::UNDEFINED)
         }
-        _ => Value::from_object(PlainObj(c.str())),
+        11 => Value::from_object(PlainObj(c.str())),
+        _ => Value::from(minijinja::Error::new(minijinja::ErrorKind::InvalidOperation, c.str())),
     }
 }
 
